@@ -1264,9 +1264,15 @@ async fn handle_signal_request<'a>(
         #[cfg(unix)]
         SignalRequest::Stop(sender) => {
             // It isn't possible to receive a stop event twice since it gets
-            // debounced in the main signal handler.
-            stopwatch.pause();
-            interval_sleep.as_mut().pause();
+            // debounced in the main signal handler. But a stop or continue
+            // event handled by terminate_child only pauses or resumes the
+            // stopwatch, not the interval sleep, so check each one's state.
+            if !stopwatch.is_paused() {
+                stopwatch.pause();
+            }
+            if !interval_sleep.is_paused() {
+                interval_sleep.as_mut().pause();
+            }
             super::os::job_control_child(child, crate::signal::JobControlEvent::Stop);
             // The receiver being dead probably means the main thread panicked
             // or similar.
@@ -1279,7 +1285,11 @@ async fn handle_signal_request<'a>(
             // test execution, so debounce it.
             if stopwatch.is_paused() {
                 stopwatch.resume();
-                interval_sleep.as_mut().resume();
+                // The interval sleep is still running if the stop event was
+                // handled by terminate_child.
+                if interval_sleep.is_paused() {
+                    interval_sleep.as_mut().resume();
+                }
                 super::os::job_control_child(child, crate::signal::JobControlEvent::Continue);
             }
             HandleSignalResult::JobControl
